@@ -43,22 +43,10 @@ func oneCase(rt *rapid.T, cs Case) {
 func classesOf(o *outcome) []string {
 	cs := o.Case
 	cl := []string{"signal:" + cs.Signal, "proto:" + cs.Proto, "phase:" + cs.Phase, cs.Signal + "|" + cs.Proto, cs.Signal + "|" + cs.Phase}
-	if cs.KeepAlive[0] {
+	if cs.KeepAlive {
 		cl = append(cl, "designated:kept-alive")
 	} else {
 		cl = append(cl, "designated:short-lived")
-	}
-	ka := 0
-	for _, k := range cs.KeepAlive {
-		if k {
-			ka++
-		}
-	}
-	if ka > 0 {
-		cl = append(cl, "has-kept-alive-client")
-	}
-	if ka < 4 {
-		cl = append(cl, "has-short-lived-client")
 	}
 	if cs.Quiet {
 		cl = append(cl, "quiet-after-signal")
@@ -146,11 +134,11 @@ func judge(rt ev.TB, o *outcome) {
 	// an answer that is not the planned one is never acceptable, whenever the request was sent
 	for _, r := range o.Results {
 		if r.wrongAnswer() {
-			ev.Fail(rt, part, fmt.Sprintf("%s/wrong-answer:%s:%s", sg, cs.Proto, r.Kind), "a request was answered with something else than its planned answer: %s (%s)", r.Detail, describe(o, r))
+			ev.Fail(rt, part, fmt.Sprintf("%s/wrong-answer:%s:%s", sg, r.Proto, r.Kind), "a request was answered with something else than its planned answer: %s (%s)", r.Detail, describe(o, r))
 		}
 	}
 	if len(o.UpstreamBad) > 0 {
-		ev.Fail(rt, part, fmt.Sprintf("%s/request-damaged-at-upstream:%s", sg, cs.Proto), "requests reached the upstream damaged: %v (%s)", o.UpstreamBad, describe(o, &result{}))
+		ev.Fail(rt, part, fmt.Sprintf("%s/request-damaged-at-upstream", sg), "requests reached the upstream damaged: %v (%s)", o.UpstreamBad, describe(o, &result{}))
 	}
 
 	if cs.Signal == "SIGTERM" {
@@ -175,7 +163,7 @@ func judge(rt ev.TB, o *outcome) {
 			} else if r.upSeen() > 0 {
 				where = "background-dispatched"
 			}
-			ev.Fail(rt, part, fmt.Sprintf("sigterm/inflight-request-failed:%s:%s:%s", cs.Proto, where, kindClass(r.Kind)),
+			ev.Fail(rt, part, fmt.Sprintf("sigterm/inflight-request-failed:%s:%s:%s", r.Proto, where, kindClass(r.Kind)),
 				"a request that was in flight when SIGTERM was sent did not complete (%s): %s", r.Detail, describe(o, r))
 		}
 		if o.ListenOpen {
@@ -188,17 +176,17 @@ func judge(rt ev.TB, o *outcome) {
 			ev.Fail(rt, part, fmt.Sprintf("sigterm/exit-code:%d", o.ExitCode), "mosn exited with status %d after SIGTERM (%s)", o.ExitCode, describe(o, &result{}))
 		}
 		// connects: once refused, refused for as long as the process lives (afterwards the port is anybody's)
-		refused := false
+		refused := map[string]bool{} // per listener
 		for _, p := range o.probes {
 			if !p.After || p.AtMs >= o.SigAtMs+o.ExitAfterMs {
 				continue
 			}
 			switch p.Kind {
 			case "connect-refused":
-				refused = true
+				refused[p.Proto] = true
 			case "ok":
-				if refused {
-					ev.Fail(rt, part, "sigterm/listener-accepts-after-refusing", "a connect at %d ms succeeded after an earlier one had been refused (%s)", p.AtMs, describe(o, &result{}))
+				if refused[p.Proto] {
+					ev.Fail(rt, part, "sigterm/listener-accepts-after-refusing", "a connect to the "+p.Proto+" listener at %d ms succeeded after an earlier one had been refused (%s)", p.AtMs, describe(o, &result{}))
 				}
 			case "connect-timeout":
 				inconclusive = append(inconclusive, fmt.Sprintf("connect at %d ms timed out", p.AtMs))
@@ -235,12 +223,12 @@ func judge(rt ev.TB, o *outcome) {
 				where = "inflight-background"
 			case r.NewConn:
 				where = "new-connection"
-			case cs.Proto == "bolt":
+			case r.Proto == "bolt":
 				where = "kept-alive-connection-handed-over"
 			default:
 				where = "kept-alive-connection-of-old-server"
 			}
-			ev.Fail(rt, part, fmt.Sprintf("sighup/request-failed:%s:%s:%s", cs.Proto, where, kindClass(r.Kind)),
+			ev.Fail(rt, part, fmt.Sprintf("sighup/request-failed:%s:%s:%s", r.Proto, where, kindClass(r.Kind)),
 				"a request failed during the hot upgrade (%s): %s", r.Detail, describe(o, r))
 		}
 		if len(o.NewPids) == 0 {
